@@ -12,6 +12,7 @@ import (
 	"runtime"
 	"strings"
 	"sync"
+	"time"
 
 	crypt "github.com/sergeymakinen/go-crypt"
 	"github.com/sergeymakinen/go-crypt/argon2"
@@ -322,7 +323,15 @@ func main() {
 		}
 	}
 	runtime.GOMAXPROCS(runtime.NumCPU())
-	runtime.Gosched()
+	// a goroutine that has done its work may still be on its way out when its WaitGroup is released: give the scheduler
+	// up to five seconds (loaded machines) before counting what is left
+	for i := 0; i < 500; i++ {
+		runtime.Gosched()
+		if runtime.NumGoroutine() <= g0 {
+			break
+		}
+		time.Sleep(10 * time.Millisecond)
+	}
 	rep.Goroutines = runtime.NumGoroutine() - g0
 	json.NewEncoder(os.Stdout).Encode(rep)
 }
